@@ -6,8 +6,8 @@
    published is the publish model (Props/C03.v); that the queued files are the
    selected/parsed ones is C09/C10.  The implementation-side fsck oracle checks
    the end-to-end statement on every run. *)
-From AM.Model Require Import Base Path Download Pipeline Stage Converge RepoRun Deb822 PoolQueue Unpack.
-From AM.Lemmas Require Import DownloadLemmas PipelineLemmas StageRunLemmas StageComplete ConvergeLemmas RepoComplete UnpackLemmas UnpackExamples.
+From AM.Model Require Import Base Path Download Pipeline Stage Converge RepoRun Deb822 PoolQueue Unpack ReleaseStage.
+From AM.Lemmas Require Import DownloadLemmas PipelineLemmas StageRunLemmas StageComplete ConvergeLemmas RepoComplete TwinStage UnpackLemmas UnpackExamples ReleaseStageLemmas FullRunComplete.
 Open Scope string_scope.
 Open Scope list_scope.
 
@@ -142,3 +142,27 @@ Example stale_higher_priority_variant_is_not_parsed :
   | None => False
   end.
 Proof. exact stale_variant_not_parsed_example. Qed.
+
+(* ---------------------------------------------------------------------------
+   The whole repository run (Model/ReleaseStage.v: release rounds, selection of the metadata queue from the
+   release files, metadata stage, skel clean-up, unpack + parse, pool queue, pool stage, cleaning), for ANY
+   upstream behaviour - faults, retries, missing variants, release files that only validate in a later round -
+   and ANY previous skel and mirror: if the run succeeds, the release files it selected from validated; for every
+   required metadata file all paths of one of its variants are staged with the size the Release declares; and
+   the pool holds exactly what the queue read off the staged indices declares - every listed path at its declared
+   size, nothing else (twins allowed). *)
+Theorem successful_run_is_complete_from_release_files :
+  forall relq retries validf metaq_of sbf pbf read u skel mirror view q pool,
+  (forall s, disjoint_files (metaq_of s) /\
+             (forall f v, In f (metaq_of s) -> In v (variants f) -> In (vsource v) (vpaths v)) /\
+             (forall f, In f (metaq_of s) -> check_size f = false)) ->
+  repo_run_full relq retries validf metaq_of sbf pbf read u skel mirror = Some (view, q, pool) ->
+  consistent_files q -> forallb required_pool_file q = true ->
+  exists skel1,
+    validf skel1 = true /\
+    (forall f, In f (metaq_of skel1) -> ignore_errors f = false -> ignore_missing f = false ->
+       exists v, In v (variants f) /\
+         forall p, In p (vpaths v) -> exists i, In (p, Some i) view /\ ((0 < vsize v)%N -> fsize i = vsize v)) /\
+    (forall p, sizes pool p = declared q p).
+Proof. exact successful_full_run_complete. Qed.
+Print Assumptions successful_run_is_complete_from_release_files.
